@@ -119,6 +119,29 @@ def twin_table(tier):
     add("immut-comp.get", "let _ = world.get::<I>(id);", True)
     add("mut-comp.get_mut", "let _ = world.get_mut::<A>(id);", True)
     add("immut-comp.insert", "world.insert(id, I(1)); world.remove::<I>(id);", True)
+    # the `immutable` marker among other attributes (doc comments are attributes too): position must not matter
+    decls = {
+        "doc-before": "/// documented\n#[derive(Component)]\n/// more\n#[component(immutable)]\nstruct I2(u32);",
+        "allow-before": "#[derive(Component)] #[allow(dead_code)] #[component(immutable)] struct I2(u32);",
+        "repr-before": "#[derive(Component)] #[repr(C)] #[component(immutable)] struct I2(u32);",
+        "derive-before": "#[derive(Component)] #[derive(Debug)] #[component(immutable)] struct I2(u32);",
+        "attr-after": "#[derive(Component)] #[component(immutable)] #[allow(dead_code)] #[repr(C)] struct I2(u32);",
+        "outer-before": "#[allow(dead_code)] #[repr(C)] /// doc\n#[derive(Component)] #[component(immutable)] struct I2(u32);",
+    }
+    for k, d in decls.items():
+        add(f"immut-comp.{k}.get_mut", d + " let _ = world.get_mut::<I2>(id);", False)
+        add(f"immut-comp.{k}.query-mut", d + " world.add_handler(|_: Receiver<E>, f: Fetcher<&mut I2>| {});", False)
+        add(f"immut-comp.{k}.get", d + " let _ = world.get::<I2>(id); world.add_handler(|_: Receiver<E>, f: Fetcher<&I2>| {});", True)
+    edecls = {
+        "doc-before": ("/// documented\n#[derive(GlobalEvent)]\n/// more\n#[event(immutable)]\nstruct EI2(u32);", "/// d\n#[derive(TargetedEvent)]\n/// d\n#[event(immutable)]\nstruct TI2(u32);"),
+        "allow-before": ("#[derive(GlobalEvent)] #[allow(dead_code)] #[event(immutable)] struct EI2(u32);", "#[derive(TargetedEvent)] #[allow(dead_code)] #[event(immutable)] struct TI2(u32);"),
+        "attr-after": ("#[derive(GlobalEvent)] #[event(immutable)] #[allow(dead_code)] struct EI2(u32);", "#[derive(TargetedEvent)] #[event(immutable)] #[repr(C)] struct TI2(u32);"),
+    }
+    for k, (g, t) in edecls.items():
+        add(f"immut-ev.{k}.recvmut-global", g + " world.add_handler(|_: ReceiverMut<EI2>| {});", False)
+        add(f"immut-ev.{k}.recv-global", g + " world.add_handler(|_: Receiver<EI2>| {}); world.send(EI2(1));", True)
+        add(f"immut-ev.{k}.recvmut-targeted", t + " world.add_handler(|_: ReceiverMut<TI2, ()>| {});", False)
+        add(f"immut-ev.{k}.recv-targeted", t + " world.add_handler(|_: Receiver<TI2, ()>| {}); world.send_to(id, TI2(1));", True)
     # immutable events
     add("immut-ev.recvmut-global", "world.add_handler(|_: ReceiverMut<EI>| {});", False, ("flag", "recvmut_global_needs_mutable"))
     add("immut-ev.recv-global", "world.add_handler(|_: Receiver<EI>| {});", True)
